@@ -21,6 +21,9 @@ func main() {
 	if len(os.Args) > 4 && os.Args[1] == "classes" {
 		os.Exit(debugClasses(os.Args[2], os.Args[3:]))
 	}
+	if len(os.Args) > 2 && os.Args[1] == "owns" {
+		os.Exit(debugOwns(os.Args[2]))
+	}
 	if len(os.Args) > 5 && os.Args[1] == "igx" {
 		os.Exit(debugIgx(os.Args[2], os.Args[3], os.Args[4], os.Args[5]))
 	}
